@@ -168,6 +168,20 @@ SetCentroid(k, alias) ==
             /\ UNCHANGED <<s, cen, rot, chir, rr, fv, ecache, stale>>
     /\ Log
 
+\* the rounded shapes hand out their live core (obj.polyhedron / obj.polygon): resizing the core through ITS public setter
+\* scales the vertices by l and leaves the rounding radius alone, so the radius relative to the size shrinks by l
+CoreSizeProps == IF Cls = "ConvexSpheropolyhedron" THEN {"volume", "surface_area"}
+                 ELSE IF Cls = "ConvexSpheropolygon" THEN {"area", "perimeter"} ELSE {}
+SetCoreSize(p, l) ==
+    /\ p \in CoreSizeProps
+    /\ Small(QMul(s, l)) /\ Small(QMul(rr, <<l[2], l[1]>>))
+    /\ s' = QMul(s, l)
+    /\ rr' = QMul(rr, <<l[2], l[1]>>)
+    /\ stale' = Apply("rescale")
+    /\ ret' = Ok("coreset", <<p, l>>)
+    /\ UNCHANGED <<cen, rot, chir, fv, ecache>>
+    /\ Log
+
 \* rounding radius of the spheropolytopes: obj.radius = radius * l  (not a similarity), l = 0 allowed
 SetRadius(l) ==
     /\ IsSphero
@@ -234,6 +248,7 @@ Next == \/ \E p \in SizeProps, l \in Lambdas : SetSize(p, l)
         \/ \E p \in SizeProps, b \in {"zero", "negative", "nan"} : SetBad(p, b)
         \/ \E k \in {"origin", "target"}, a \in {"centroid", "center"} : SetCentroid(k, a)
         \/ \E l \in Lambdas \cup {<<0, 1>>} : SetRadius(l)
+        \/ \E p \in CoreSizeProps, l \in Lambdas : SetCoreSize(p, l)
         \/ SetRadiusNegative
         \/ \E p \in AxisProps, l \in Lambdas : SetAxis(p, l)
         \/ \E p \in AxisProps, b \in {"zero", "negative", "nan"} : SetAxisBad(p, b)
